@@ -232,7 +232,8 @@ def complete (s : PState) (c : Completion) : PState :=
   | some f =>
     let ms := match c.res with
       | .ok => f
-      | .err => f.sorted.take c.applied
+      -- callback layer: a Flush request succeeds or fails as a whole, and every request of one failing flush fails
+      | .err => f.sorted.take (if s.cfg.layer then 0 else c.applied)
     { s with
       store := s.store.apply ms
       running := false
@@ -339,6 +340,23 @@ def run (s : PState) : List Op → PState
   | op :: ops => run (step s op).1 ops
 
 def init (cfg : Cfg) : PState := { cfg := cfg }
+
+/-- the value of `k` in the newest generation whose flush function has returned and that holds `k`
+    (`hist` is newest first; the generation still being flushed is not counted) -/
+def newestFlushed (s : PState) (k : Bytes) : Option Bytes :=
+  ((if s.running then s.hist.tail else s.hist).map (·.2)).findSome? (·.get k)
+
+/-- the assumption under which the callback's bounds are meaningful: written keys are non-empty (the empty key is the
+    "unset" sentinel of pipelinedStart / pipelinedEnd / primaryKey) -/
+def Op.keyOk : Op → Bool
+  | .set k _ => !k.isEmpty
+  | .del k => !k.isEmpty
+  | _ => true
+
+/-- what the caller sees: the results of the ops, in order -/
+def runOuts (s : PState) : List Op → List Out
+  | [] => []
+  | op :: ops => (step s op).2 :: runOuts (step s op).1 ops
 
 /-! ## the specification the buffer is compared with: one map and the batches between flushes -/
 
